@@ -79,6 +79,7 @@ type Whitelist struct {
 	File    string
 	Line    int
 	ValueIs string // optional value filter for writers ("true")
+	RainOnly bool
 }
 
 type DynSpec struct {
@@ -114,7 +115,7 @@ type UFun struct {
 
 var clauseRe = regexp.MustCompile(`^([A-Za-z0-9_.]+):\s*(.*)$`)
 
-var keywords = map[string]bool{"func": true, "props": true, "safety": true, "requires": true, "ensures": true, "loop": true, "site": true, "inline": true, "trusted": true, "pred": true, "callers": true, "writers": true, "dyncall": true, "chan": true, "cover": true, "pure": true, "ufun": true, "preserves": true, "noauto": true, "package": true, "layout": true, "callsarg": true, "specfn": true, "lemma": true, "apply": true, "assume": true}
+var keywords = map[string]bool{"func": true, "props": true, "safety": true, "requires": true, "ensures": true, "loop": true, "site": true, "inline": true, "trusted": true, "pred": true, "callers": true, "writers": true, "dyncall": true, "chan": true, "cover": true, "pure": true, "ufun": true, "preserves": true, "noauto": true, "package": true, "layout": true, "callsarg": true, "specfn": true, "lemma": true, "apply": true, "assume": true, "raincallers": true}
 
 func loadContracts(root string) (*Contracts, error) {
 	cs := &Contracts{Funcs: map[string]*FuncContract{}, Preds: map[string]*Pred{}, UFuns: map[string]*UFun{}, Lemmas: map[string]*Lemma{}}
@@ -384,8 +385,13 @@ func (cs *Contracts) parseFile(path, pkg string) error {
 				}
 			}
 			cs.UFuns[u.Name] = u
-		case "callers", "writers":
-			// callers <label> <target> : a, b, c
+		case "callers", "writers", "raincallers":
+			// callers <label> <target> : a, b, c        (whole program, dependencies included)
+			// raincallers <label> <target> : a, b, c    (functions of the rain module only)
+			rainOnly := kw == "raincallers"
+			if rainOnly {
+				kw = "callers"
+			}
 			i := strings.Index(rest, ":")
 			if i < 0 || len(fs) < 3 {
 				return fmt.Errorf("%s:%d: bad %s", path, d.line, kw)
@@ -398,6 +404,7 @@ func (cs *Contracts) parseFile(path, pkg string) error {
 			if len(head) >= 4 && head[2] == "=" {
 				wl.ValueIs = head[3]
 			}
+			wl.RainOnly = rainOnly
 			cs.WLs = append(cs.WLs, wl)
 		case "layout":
 			// layout <label> <Type> : Name:type, Name:type, ...
